@@ -5,3 +5,12 @@ import NTV.Proofs.C12
 #print axioms NTV.C12.division_contract
 #print axioms NTV.C12.gcd_divides_both
 #print axioms NTV.C12.input_reduction
+#print axioms NTV.C12.roots_in_range
+#print axioms NTV.C12.roots_sound
+#print axioms NTV.C12.roots_complete
+#print axioms NTV.C12.no_root_empty
+#print axioms NTV.C12.splits_length
+#print axioms NTV.C12.history_independent
+#print axioms NTV.C12.impl_roots
+#print axioms NTV.C12.gcd_greatest
+#print axioms NTV.C12.nonzero_mod_iff
